@@ -133,6 +133,8 @@ def h_budget(ctx, cfg):
         settings["kkt_tol_abs"] = cfg["kkt"]   # the KKT residual is computed at every point whose gradients are all recorded
     if cfg.get("tol"):
         settings.update(xtol_abs=cfg["tol"], ftol_abs=cfg["tol"], stop_crit_n_x=2)
+    if "use_database" in cfg:
+        settings["use_database"] = cfg["use_database"]   # "every normalization/database setting"
     result = lib.execute(problem, **settings)
     ctx.check("execute returns an OptimizationResult", ctx.true() if isinstance(result, OptimizationResult) else ctx.false())
     items = db_items(problem.database)
@@ -314,6 +316,9 @@ def configs(tier):
         out.append(("budget", dict(n=1, K=3 if not quick else 2, N=N + 1, normalized=True, constraint=False, tol=0.25)))
     for N in (1, 2, 3):
         out.append(("budget", dict(n=1, K=2, N=N, normalized=True, constraint=False, kkt=0.25)))
+    for N in (1, 2):
+        for normalized in (True, False):
+            out.append(("budget", dict(n=1, K=2, N=N, normalized=normalized, constraint=False, use_database=False)))
     for reset in (True, False):
         for N in (1, 2, 3):
             out.append(("two_runs", dict(n=1, K=1, N=N, reset=reset)))
